@@ -9,6 +9,8 @@
          on every string of Unicode scalar values (and only those are encodable).
      C24_tool_codecs_are_utf8 (regenerated fact: the `encoding=` of the tool's four open() sites),
      C24_utf8sig_input_refuted (what another codec would lose)
+     C24_tool_writers_write_all (regenerated fact: each output branch of write_c_source is one write of the whole text;
+         the *_is_direct statements are for OUTPUT a path and for OUTPUT '-' alike: parameter to_stdout)
      C24_read_sources_is_direct(_no_cr), C24_exec_python_is_direct
          equalities between two HAND-WRITTEN compositions (C24/Model.v, same author) around abstract make_ffi /
          find_ffi / emit.  They record the argument — bytes -> text (UTF-8 + universal newlines) -> cffi ->
@@ -39,21 +41,21 @@ Theorem C24_utf8_total_on_scalar_values : forall s,
 Proof. exact utf8_encode_total. Qed.
 Print Assumptions C24_utf8_total_on_scalar_values.
 
-Theorem C24_read_sources_is_direct : forall ffi make_ffi emit name cdef csrc bc bs,
+Theorem C24_read_sources_is_direct : forall ffi make_ffi emit to_stdout name cdef csrc bc bs,
   utf8_encode cdef = Some bc -> utf8_encode csrc = Some bs ->
-  gen_src_read_sources ffi make_ffi emit the_codecs name bc bs =
+  gen_src_read_sources ffi make_ffi emit the_codecs the_writers to_stdout name bc bs =
   direct ffi make_ffi emit name (universal_nl cdef) (universal_nl csrc).
 Proof. exact read_sources_is_direct. Qed.
 Print Assumptions C24_read_sources_is_direct.
 
-Theorem C24_read_sources_is_direct_no_cr : forall ffi make_ffi emit name cdef csrc bc bs,
+Theorem C24_read_sources_is_direct_no_cr : forall ffi make_ffi emit to_stdout name cdef csrc bc bs,
   no_cr cdef -> no_cr csrc -> utf8_encode cdef = Some bc -> utf8_encode csrc = Some bs ->
-  gen_src_read_sources ffi make_ffi emit the_codecs name bc bs = direct ffi make_ffi emit name cdef csrc.
+  gen_src_read_sources ffi make_ffi emit the_codecs the_writers to_stdout name bc bs = direct ffi make_ffi emit name cdef csrc.
 Proof. exact read_sources_is_direct_no_cr. Qed.
 Print Assumptions C24_read_sources_is_direct_no_cr.
 
-Theorem C24_exec_python_is_direct : forall ffi find_ffi emit script var b, utf8_encode script = Some b ->
-  gen_src_exec_python ffi find_ffi emit the_codecs b var =
+Theorem C24_exec_python_is_direct : forall ffi find_ffi emit to_stdout script var b, utf8_encode script = Some b ->
+  gen_src_exec_python ffi find_ffi emit the_codecs the_writers to_stdout b var =
   direct_of_script ffi find_ffi emit (universal_nl script) var.
 Proof. exact exec_python_is_direct. Qed.
 Print Assumptions C24_exec_python_is_direct.
@@ -72,10 +74,17 @@ Theorem C24_tool_codecs_are_utf8 :
 Proof. exact tool_codecs_are_utf8. Qed.
 Print Assumptions C24_tool_codecs_are_utf8.
 
+(* both output branches of write_c_source (regenerated: `the_writers`) hand the text over in one write; with any
+   other shape (WriterOther: e.g. printing line by line, which turns \v, \f, U+2028 ... into newlines) the model
+   has no output and none of the *_is_direct statements holds *)
+Theorem C24_tool_writers_write_all : w_stdout the_writers = WriteAll /\ w_file the_writers = WriteAll.
+Proof. exact tool_writers_write_all. Qed.
+Print Assumptions C24_tool_writers_write_all.
+
 Theorem C24_utf8sig_input_refuted :
   let cs := {| c_pyfile := Utf8; c_cdef := Utf8; c_csrc := Utf8Sig; c_output := Utf8 |} in
   exists cdef csrc bc bs, utf8_encode cdef = Some bc /\ utf8_encode csrc = Some bs /\
-    gen_src_read_sources str (fun n c s => c ++ s) (fun x => x) cs [109] bc bs <>
+    gen_src_read_sources str (fun n c s => c ++ s) (fun x => x) cs the_writers false [109] bc bs <>
     direct str (fun n c s => c ++ s) (fun x => x) [109] cdef csrc.
 Proof. exact utf8sig_input_loses_bom. Qed.
 Print Assumptions C24_utf8sig_input_refuted.
@@ -88,6 +97,6 @@ Example C24_example_codec :
 Proof. vm_compute. repeat split; reflexivity. Qed.
 
 Example C24_example_pipeline :
-  gen_src_read_sources str (fun n c s => n ++ [58] ++ c ++ [58] ++ s) (fun x => x ++ [10]) the_codecs [109] [105;13;10] [195;169]
+  gen_src_read_sources str (fun n c s => n ++ [58] ++ c ++ [58] ++ s) (fun x => x ++ [10]) the_codecs the_writers true [109] [105;13;10] [195;169]
   = Some [109;58;105;10;58;195;169;10].
 Proof. vm_compute. reflexivity. Qed.
